@@ -18,6 +18,14 @@ def listedB (k : Kernel) (o : PObj) : Bool := k.procs.any fun x => x.pid == o.pi
 def ownZombie (k : Kernel) (o : PObj) : Option Bool :=
   (k.procs.find? fun x => x.pid == o.pid && x.start == o.ghost).map (·.zombie)
 
+/-- `open("/proc/pid/stat")` does not fail with PermissionError right now: the PID is free (the open fails with
+    ENOENT — nobody there) or its holder's stat file can be read.  An INPUT of the kernel (hidepid mounts, LSMs),
+    like the permission answers; the process table itself is not touched by it. -/
+def StatOpens (k : Kernel) (pid : Nat) : Prop := k.find pid = none ∨ k.isHidden pid = false
+
+/-- executable form of `StatOpens` (what the driver prints as "readable") -/
+def statOpensB (k : Kernel) (pid : Nat) : Bool := (k.find pid).isNone || !k.isHidden pid
+
 /-- two objects denote the same process: same PID, same process start -/
 def SameIncarnation (a b : PObj) : Prop := a.pid = b.pid ∧ a.ghost = b.ghost
 
